@@ -136,7 +136,8 @@ def a_positional(ctx):
               "the default expression is evaluated only in the branch where the name is absent from the call", line=fn.lineno)
     ctx.check("C08.a.binding", SM, "create_flow_instance", "positional by declaration order", pos_ok,
               "after the named/default pass, `$<idx>` (idx = position in the declared parameter list) overrides the parameter of that position", line=fn.lineno)
-    ctxupd = any(isinstance(c, ast.Call) and src(c.func) == "flow_state.context.update" for c in ast.walk(loops[0])) if ok else False
+    ctxupd = (any(isinstance(c, ast.Call) and src(c.func) == "flow_state.context.update" for c in ast.walk(loops[0])) or
+              any(isinstance(a, ast.Assign) and isinstance(a.targets[0], ast.Subscript) and src(a.targets[0].value) == "flow_state.context" for a in ast.walk(loops[0]))) if ok else False
     ctx.check("C08.a.binding", SM, "create_flow_instance", "parameters visible as locals", ctxupd, "bound parameters are copied into the instance's own context", line=fn.lineno)
 
 
@@ -147,7 +148,18 @@ def a_reference_match(ctx):
     fn = find_function(sm, "_get_reference_activated_flow_instance")
     if fn is None:
         raise AnalysisError("_get_reference_activated_flow_instance not found", anchor=SM + "::_get_reference_activated_flow_instance")
-    loops = [l for l in ast.walk(fn) if isinstance(l, ast.For) and "parameters" in src(l.iter) and src(getattr(l.iter, "func", l.iter)) == "enumerate"]
+    def _loops(f):
+        return [l for l in ast.walk(f) if isinstance(l, ast.For) and "parameters" in src(l.iter) and src(getattr(l.iter, "func", l.iter)) == "enumerate"]
+    loops = _loops(fn)
+    if not loops:
+        # the comparison may have been extracted into a module-level helper called from here
+        for c in ast.walk(fn):
+            if isinstance(c, ast.Call) and isinstance(c.func, ast.Name):
+                h = find_function(sm, c.func.id)
+                if h is not None and _loops(h):
+                    fn = h
+                    loops = _loops(h)
+                    break
     if not loops:
         raise AnalysisError("parameter comparison loop not found", anchor=SM + "::_get_reference_activated_flow_instance")
     loop = loops[0]
@@ -184,7 +196,8 @@ def a_reference_match(ctx):
                   line=n.lineno)
     ctx.check("C08.a.reference-match", SM, fn.name, "named/positional/default all compared", kinds == {"named", "positional", "default"},
               "the three binding forms (named, positional `$<idx>`, default expression) each have a value comparison: %s" % sorted(kinds), line=loop.lineno)
-    rej = any(isinstance(i, ast.If) and re.sub(r"\s", "", src(i.test)) == "notmatched" and any(isinstance(s, (ast.Break, ast.Continue, ast.Assign)) for s in i.body) for i in loop.body)
+    rej = any(isinstance(i, ast.If) and re.sub(r"\s", "", src(i.test)) == "notmatched" and any(
+        isinstance(s, (ast.Break, ast.Continue, ast.Assign)) or (isinstance(s, ast.Return) and isinstance(s.value, ast.Constant) and s.value.value is False) for s in i.body) for i in loop.body)
     ctx.check("C08.a.reference-match", SM, fn.name, "mismatch rejects", rej, "a parameter for which no clause matched rejects the candidate instance", line=loop.lineno)
 
 
